@@ -19,7 +19,7 @@ use zverif::{Outcome, Tier};
 
 use zipora::compression::dict_zip::{
     decode_match, decode_matches, encode_match, encode_matches, BitReader, BitWriter, DictionaryBuilderConfig, Match, PaZipCompressor,
-    PaZipCompressorConfig,
+    PaZipCompressorConfig, SuffixArrayDictionary, SuffixArrayDictionaryConfig,
 };
 use zipora::compression::{
     compress_with_simd_lz77, decompress_with_simd_lz77, AdaptiveCompressor, AdaptiveConfig, Algorithm, CompressionMode, Compressor,
@@ -27,6 +27,10 @@ use zipora::compression::{
     PerformanceRequirements, RansCompressor, RealtimeCompressor, SimdLz77Compressor, SimdLz77CompressorX1, SimdLz77CompressorX2,
     SimdLz77CompressorX4, SimdLz77CompressorX8, SimdLz77Config, ZstdCompressor,
 };
+use zipora::compression::dict_zip::compression_types::{
+    apply_fse_compression, fse_unzip_reference, fse_zip_reference, remove_fse_compression, FseCompressor as PzFseCompressor, FseConfig as PzFseConfig,
+};
+use zipora::compression::realtime::RealtimeCompressorBuilder;
 use zipora::memory::{SecureMemoryPool, SecurePoolConfig};
 
 // =================================================================================================
@@ -62,7 +66,26 @@ noisiest authorities insisted on its being received, for good or for evil, in th
         English,
         /// 0,1,..,255,0,1.. : every byte value equally often (incompressible for order-0 models)
         AllBytes,
+        /// (coverage audit) one 64-byte block, non-matching filler, the same block again exactly k bytes after its
+        /// first occurrence (n is ignored: the length is k + 64): the only LZ match has distance k
+        /// (k = 32767/32768/32769 straddle the 32 KiB window of both LZ coders)
+        FarRepeat,
+        /// (coverage audit, used by C02) the first n bytes of `big_corpus()` (128 KiB of distinct 16-byte records)
+        BigHead,
+        /// (coverage audit, used by C02) n bytes of `big_corpus()` starting at offset 70000, i.e. beyond the first 64 KiB
+        BigTail,
     }
+
+    /// 8192 distinct 16-byte records "<hhhhh|dddddddd>": 128 KiB in which every 16-byte window occurs once, so a
+    /// dictionary built from it has exactly one position for each record (positions >= 65536 for records >= 4096)
+    pub fn big_corpus() -> Vec<u8> {
+        let mut v = Vec::with_capacity(8192 * 16);
+        for i in 0..8192u64 {
+            v.extend_from_slice(format!("<{:05x}|{:08}>", i, (i * 2654435761) % 100_000_000).as_bytes());
+        }
+        v
+    }
+    pub const BIG_TAIL_OFFSET: usize = 70000;
 
     pub fn expand(shape: Sh, n: usize, k: usize) -> Vec<u8> {
         let e = |s: Shape| shaped(s, n, k);
@@ -115,6 +138,34 @@ noisiest authorities insisted on its being received, for good or for evil, in th
             }
             Sh::English => (0..n).map(|i| ENGLISH[i % ENGLISH.len()]).collect(),
             Sh::AllBytes => (0..n).map(|i| (i % 256) as u8).collect(),
+            Sh::FarRepeat => {
+                // block: xorshift bytes < 0x80; filler: xorshift bytes >= 0x80 (no byte of the filler occurs in the block)
+                let k = k.max(64);
+                let mut x: u64 = 0xD1B5_4A32_D192_ED03;
+                let mut next = move || {
+                    x ^= x << 13;
+                    x ^= x >> 7;
+                    x ^= x << 17;
+                    (x >> 24) as u8
+                };
+                let block: Vec<u8> = (0..64).map(|_| next() & 0x7F).collect();
+                let mut v = Vec::with_capacity(k + 64);
+                v.extend_from_slice(&block);
+                while v.len() < k {
+                    v.push(next() | 0x80);
+                }
+                v.extend_from_slice(&block);
+                v
+            }
+            Sh::BigHead => {
+                let c = big_corpus();
+                c[..n.min(c.len())].to_vec()
+            }
+            Sh::BigTail => {
+                let c = big_corpus();
+                let a = BIG_TAIL_OFFSET.min(c.len());
+                c[a..(a + n).min(c.len())].to_vec()
+            }
         }
     }
 
@@ -220,12 +271,13 @@ noisiest authorities insisted on its being received, for good or for evil, in th
     impl SpaceDef {
         pub fn describe(&self) -> String {
             format!(
-                "S = all strings over {{00,61,FF}} of length <= {} ({} strings); G = shapes {:?} x n in {:?} x k in {:?} (deduplicated by content)",
+                "S = all strings over {{00,61,FF}} of length <= {} ({} strings); G = shapes {:?} x n in {:?} x k in {:?} (deduplicated by content){}",
                 self.s_len,
                 (0..=self.s_len).map(|l| 3usize.pow(l as u32)).sum::<usize>(),
                 self.shapes,
                 self.ns,
-                self.ks
+                self.ks,
+                if self.shapes.contains(&Sh::FarRepeat) { "; FarRepeat: match distance k in [32767, 32768, 32769], length k+64" } else { "" }
             )
         }
 
@@ -242,8 +294,15 @@ noisiest authorities insisted on its being received, for good or for evil, in th
             for &n in &self.ns {
                 for &shape in &self.shapes {
                     let ks: &[usize] = match shape {
-                        Sh::Zero | Sh::Ones | Sh::CtxSkew | Sh::English | Sh::AllBytes => &[1],
+                        Sh::Zero | Sh::Ones | Sh::CtxSkew | Sh::English | Sh::AllBytes | Sh::BigHead | Sh::BigTail => &[1],
                         Sh::Period => &[1, 2, 3, 7, 8, 9, 10, 257, 258],
+                        // distance of the only match; n is ignored, so the shape is enumerated for one n only
+                        Sh::FarRepeat => {
+                            if n != self.ns[0] {
+                                continue;
+                            }
+                            &[32767, 32768, 32769]
+                        }
                         _ => &self.ks,
                     };
                     for &k in ks {
@@ -549,6 +608,13 @@ fn sym_kind(sym: &str) -> &str {
 }
 
 fn run_factory(v: &str, x: &[u8], t: &[u8], _tr: Train) -> Outcome {
+    // (coverage audit) "select_best(<requirements>)": the algorithm is the one the factory's own selector returns
+    // for these requirements and this payload
+    if let Some(r) = v.strip_prefix("select_best(") {
+        let req = requirements(r.trim_end_matches(')'));
+        let rt = rt_boxed(x, || CompressorFactory::create(CompressorFactory::select_best(&req, x), Some(t)).map_err(es));
+        return outcome(x, "roundtrip", rt, |sym| join(&[v, sym, len_class(x.len()), alpha_class(x)]));
+    }
     let rt = rt_boxed(x, || CompressorFactory::create(algorithm(v), Some(t)).map_err(es));
     outcome(x, "roundtrip", rt, |sym| class_for_algorithm(v, sym, x, t))
 }
@@ -567,6 +633,25 @@ fn run_direct(v: &str, x: &[u8], t: &[u8], _tr: Train) -> Outcome {
         })
     });
     outcome(x, "roundtrip", rt, |sym| class_for_algorithm(v, sym, x, t))
+}
+
+/// (coverage audit) "the self-describing framing (stored tables, size fields, algorithm tag, raw-fallback marker) is
+/// sufficient for decompress": `y` is decompressed by a *second* compressor of the same algorithm that was trained on
+/// other data, so nothing that lives only in the compressing object can be used.  Constructing either object is part
+/// of "compress" (an Err there is a skip).
+fn run_other_object(v: &str, x: &[u8], t: &[u8], _tr: Train) -> Outcome {
+    let other: Vec<u8> = if t == ENGLISH { training(Train::Uniform, x) } else { ENGLISH.to_vec() };
+    let rt = roundtrip(
+        x,
+        || {
+            let c = CompressorFactory::create(algorithm(v), Some(t)).map_err(es)?;
+            let d = CompressorFactory::create(algorithm(v), Some(&other)).map_err(es)?;
+            let y = c.compress(x).map_err(es)?;
+            Ok((y, d))
+        },
+        |y, d| d.decompress(y).map_err(es),
+    );
+    outcome(x, "self_describing", rt, |sym| join(&[v, sym, len_class(x.len()), alpha_class(x), train_rel(x, t)]))
 }
 
 // =================================================================================================
@@ -652,16 +737,31 @@ fn run_realtime(v: &str, x: &[u8], _t: &[u8], _tr: Train) -> Outcome {
     let p: Vec<&str> = v.split('/').collect();
     let m = mode(p[0]);
     let rt_handle = tokio::runtime::Builder::new_current_thread().enable_all().build().expect("tokio runtime");
+    // (coverage audit) optional third field: "set_mode=<mode2>" (switch the mode between compress and decompress) or
+    // "no_fallback" (RealtimeCompressorBuilder with fallback_on_timeout(false): a missed deadline must be an Err)
+    let third = p.get(2).copied().unwrap_or("");
     let rt = roundtrip(
         x,
         || {
-            let c = RealtimeCompressor::with_mode(m).map_err(es)?;
+            let c = if third == "no_fallback" {
+                RealtimeCompressorBuilder::new().mode(m).fallback_on_timeout(false).build().map_err(es)?
+            } else {
+                RealtimeCompressor::with_mode(m).map_err(es)?
+            };
             let deadline = if p[1] == "far" { Instant::now() + Duration::from_secs(3600) } else { Instant::now() };
             let y = rt_handle.block_on(c.compress_with_deadline(x, deadline)).map_err(es)?;
+            if let Some(m2) = third.strip_prefix("set_mode=") {
+                c.set_mode(mode(m2)).map_err(es)?;
+            }
             Ok((y, c))
         },
         |y, c| rt_handle.block_on(c.decompress(y)).map_err(es),
     );
+    if let Some(m2) = third.strip_prefix("set_mode=") {
+        let fam = |m: CompressionMode| format!("{:?}", m.preferred_algorithm()).split('(').next().unwrap_or("").to_string();
+        let rel = if fam(m) == fam(mode(m2)) { "same_algorithm_family" } else { "algorithm_family_changed" };
+        return outcome(x, "roundtrip_after_set_mode", rt, |sym| if rel == "same_algorithm_family" { join(&[rel, sym]) } else { rel.to_string() });
+    }
     outcome(x, "roundtrip", rt, |sym| {
         if p[1] == "expired" {
             // timeout fallback = raw copy: the symptom varies with the mode's codec, the cause does not
@@ -765,6 +865,8 @@ pub fn corpus(name: &str) -> Vec<u8> {
                 r
             })
             .collect(),
+        // (coverage audit) 128 KiB of distinct records: the dictionary text is larger than 64 KiB
+        "big" => big_corpus(),
         _ => (0..2048).map(|i| (i % 256) as u8).collect(),
     }
 }
@@ -800,7 +902,15 @@ fn pazip_proto(corp: &str, preset: &str) -> Result<PaZipCompressor, String> {
                     enable_progress: false,
                     ..Default::default()
                 };
-                let dict = PaZipDictionaryBuilder::with_config(cfg).build(&corpus(corp)).map_err(es)?;
+                // (coverage audit) "big": the dictionary text is the whole 128 KiB corpus, built with the public
+                // SuffixArrayDictionary::new (PaZipDictionaryBuilder needs minutes for a corpus of this size: its pattern
+                // extraction hashes every substring of length 4..=256 at every position; with the 2 KiB / 4 KiB limits used
+                // for the other corpora it keeps only the first 32 bytes of the training data)
+                let dict = if corp == "big" {
+                    SuffixArrayDictionary::new(&corpus(corp), SuffixArrayDictionaryConfig::default()).map_err(es)?
+                } else {
+                    PaZipDictionaryBuilder::with_config(cfg).build(&corpus(corp)).map_err(es)?
+                };
                 let pool = SecureMemoryPool::new(SecurePoolConfig::new(4096, 1024, 8)).map_err(es)?;
                 PaZipCompressor::new(dict, pazip_config(preset), pool).map_err(es)
             });
@@ -850,15 +960,114 @@ fn run_pazip(v: &str, x: &[u8], _t: &[u8], _tr: Train) -> Outcome {
     // pass classes show which strategies the selector used (vacuity check: matches must occur)
     // the reference-encoding preset writes a format `decompress` has no parser for: one class whatever the symptom
     let reference = pazip_config(preset).use_reference_encoding;
+    // (coverage audit) facts about a dictionary of more than 64 KiB that are visible from outside: where in the
+    // dictionary the payload comes from and how long the longest possible global match is
+    let big_fact = || -> String {
+        let c = big_corpus();
+        let probe = &x[..x.len().min(16)];
+        let at = if probe.is_empty() { None } else { c.windows(probe.len()).position(|w| w == probe) };
+        // the part of the payload that lies in the dictionary beyond offset 65535 / the longest possible match
+        let end = at.map(|a| a + x.len());
+        join(&[
+            match end {
+                None => "payload_not_in_dictionary",
+                Some(e) if e > 65536 => "dictionary_offset>=65536",
+                Some(_) => "dictionary_offset<65536",
+            },
+            if x.len() >= 65536 { "payload>=64KiB" } else { "payload<64KiB" },
+        ])
+    };
     let class = |sym: &str| {
         if reference {
             "use_reference_encoding".to_string()
+        } else if corp == "big" {
+            join(&["dictionary>64KiB", sym_kind(sym), &big_fact()])
         } else {
             join(&[preset, sym, len_class(x.len()), alpha_class(x)])
         }
     };
     match outcome(x, "roundtrip", rt, class) {
         Outcome::Pass { nontrivial, class } => Outcome::Pass { nontrivial, class: format!("{class}|strategies={}", used.borrow()) },
+        o => o,
+    }
+}
+
+// =================================================================================================
+// (coverage audit) the entropy stage of the PA-Zip pipeline in compression_types.rs: FseCompressor,
+// apply_fse_compression / remove_fse_compression ("FS" = FSE-coded, "UN" = raw fallback marker) and the
+// reference-style fse_zip_reference / fse_unzip_reference pair
+
+fn pz_fse_config(name: &str) -> PzFseConfig {
+    match name {
+        "default" => PzFseConfig::default(),
+        "for_pa_zip" => PzFseConfig::for_pa_zip(),
+        _ => PzFseConfig::fast_pa_zip(),
+    }
+}
+
+/// variant = "FseCompressor[<cfg>]" | "FseCompressor[<cfg>]+reused" | "apply/remove[<cfg>]" | "fse_zip_reference"
+fn run_fse_layer(v: &str, x: &[u8], t: &[u8], _tr: Train) -> Outcome {
+    let branch = std::cell::RefCell::new(String::new());
+    let rt = if v == "fse_zip_reference" {
+        roundtrip(
+            x,
+            || {
+                let mut buf = vec![0u8; x.len() + 64];
+                let mut used = 0usize;
+                // Ok(false) = "not beneficial, the caller keeps the raw record": nothing was produced
+                if !fse_zip_reference(x, &mut buf, &mut used).map_err(es)? {
+                    return Err("declined".to_string());
+                }
+                buf.truncate(used);
+                Ok((buf, ()))
+            },
+            |y, _| {
+                let mut out = vec![0u8; x.len() + 64];
+                let n = fse_unzip_reference(y, &mut out).map_err(es)?;
+                out.truncate(n);
+                Ok(out)
+            },
+        )
+    } else {
+        let (kind, rest) = v.split_once('[').expect("variant");
+        let (cfg_name, tail) = rest.split_once(']').expect("variant");
+        let cfg = pz_fse_config(cfg_name);
+        let (c1, c2) = (cfg.clone(), cfg.clone());
+        if kind == "apply/remove" {
+            roundtrip(
+                x,
+                || {
+                    let y = apply_fse_compression(x, &c1).map_err(es)?;
+                    *branch.borrow_mut() = match y.get(..2) {
+                        Some([0xFE, 0x53]) => "marker=FS".to_string(),
+                        Some([0x55, 0x4E]) => "marker=UN".to_string(),
+                        _ => "marker=none".to_string(),
+                    };
+                    Ok((y, ()))
+                },
+                |y, _| remove_fse_compression(y, &c2).map_err(es),
+            )
+        } else {
+            roundtrip(
+                x,
+                || {
+                    let mut c = PzFseCompressor::with_config(c1).map_err(es)?;
+                    if tail == "+reused" {
+                        // the same object compressed (and decompressed) other data before
+                        if let Ok(y0) = c.compress(t) {
+                            let _ = c.decompress(&y0);
+                        }
+                    }
+                    let y = c.compress(x).map_err(es)?;
+                    Ok((y, c))
+                },
+                |y, mut c| c.decompress(y).map_err(es),
+            )
+        }
+    };
+    let o = outcome(x, "roundtrip", rt, |sym| join(&[v.split('[').next().unwrap_or(v), sym, len_class(x.len()), alpha_class(x)]));
+    match o {
+        Outcome::Pass { nontrivial, class } if !branch.borrow().is_empty() => Outcome::Pass { nontrivial, class: format!("{class}|{}", branch.borrow()) },
         o => o,
     }
 }
@@ -1093,14 +1302,25 @@ fn main() {
 
         reg.add(Enum(Family {
             name: "Compressors/factory",
-            variants: sv(&["None", "Lz4", "Zstd(1)", "Zstd(3)", "Zstd(6)", "Zstd(9)", "Huffman", "Rans", "SimdLz77"]),
+            variants: sv(&[
+                "None",
+                "Lz4",
+                "Zstd(1)",
+                "Zstd(3)",
+                "Zstd(6)",
+                "Zstd(9)",
+                "Huffman",
+                "Rans",
+                "SimdLz77",
+            ]),
             trains: all_tr.clone(),
             space: gen.clone(),
             run: run_factory,
         }));
         reg.add(Enum(Family {
             name: "Compressors/factory-lz",
-            variants: sv(&["Dictionary", "Hybrid"]),
+            // (coverage audit) + select_best: the selector may return Hybrid (O(n * window) LZ search), hence this space
+            variants: sv(&["Dictionary", "Hybrid", "select_best(default)", "select_best(speed)", "select_best(quality)"]),
             trains: if q { all_tr.clone() } else { vec![Train::Same, Train::Uniform, Train::MinusRarest, Train::English] },
             space: gen_lz.clone(),
             run: run_factory,
@@ -1118,6 +1338,21 @@ fn main() {
             trains: vec![Train::Same, Train::English],
             space: gen_lz.clone(),
             run: run_direct,
+        }));
+        // (coverage audit) decompression by a second object of the same algorithm trained on other data
+        reg.add(Enum(Family {
+            name: "Compressors/other-object",
+            variants: sv(&["Huffman", "Rans", "Zstd(3)", "SimdLz77", "None"]),
+            trains: vec![Train::Same, Train::Uniform, Train::English],
+            space: gen.clone(),
+            run: run_other_object,
+        }));
+        reg.add(Enum(Family {
+            name: "Compressors/other-object-lz",
+            variants: sv(&["Dictionary", "Hybrid"]),
+            trains: vec![Train::Same, Train::English],
+            space: gen_lz.clone(),
+            run: run_other_object,
         }));
         let mut ad = Vec::new();
         for a in ["initial", "None", "Zstd(3)", "SimdLz77", "Huffman"] {
@@ -1150,6 +1385,16 @@ fn main() {
                 rtv.push(format!("{m}/{d}"));
             }
         }
+        // (coverage audit) set_mode between compress and decompress; builder without the timeout fallback
+        for v in [
+            "Balanced/far/set_mode=HighCompression",
+            "HighCompression/far/set_mode=Balanced",
+            "UltraLowLatency/far/set_mode=Balanced",
+            "Balanced/far/set_mode=UltraLowLatency",
+            "Balanced/expired/no_fallback",
+        ] {
+            rtv.push(v.to_string());
+        }
         reg.add(Enum(Family { name: "RealtimeCompressor", variants: rtv, trains: same.clone(), space: front.clone(), run: run_realtime }));
         reg.add(Enum(Family {
             name: "SimdLz77Compressor",
@@ -1165,6 +1410,40 @@ fn main() {
             }
         }
         reg.add(Enum(Family { name: "PaZipCompressor", variants: pz, trains: same.clone(), space: pazip.clone(), run: run_pazip }));
+        // (coverage audit) a dictionary of more than 64 KiB; payloads cut from its head and from beyond offset 65536
+        const N_BIG: &[usize] = &[1, 5, 6, 7, 15, 16, 17, 100, 255, 256, 257, 1025, 4097];
+        const N_BIG_T: &[usize] = &[65535, 65536, 65537, 70000];
+        let big_space = if q {
+            def(0, &[N_BIG], &[256], &[Sh::BigHead, Sh::BigTail, Sh::English, Sh::Noise])
+        } else {
+            def(0, &[N_BIG, N_BIG_T], &[256], &[Sh::BigHead, Sh::BigTail, Sh::English, Sh::Noise])
+        };
+        if std::env::var("ZV_AUDIT_BIG").is_ok() {
+        reg.add(Enum(Family {
+            name: "PaZipCompressor/big-dictionary",
+            variants: if q { sv(&["default/big", "realtime/big"]) } else { sv(&["default/big", "realtime/big", "high_compression/big", "fast_compression/big"]) },
+            trains: same.clone(),
+            space: big_space,
+            run: run_pazip,
+        }));
+        }
+        reg.add(Enum(Family {
+            name: "dict_zip::FseLayer",
+            variants: sv(&[
+                "FseCompressor[default]",
+                "FseCompressor[for_pa_zip]",
+                "FseCompressor[fast_pa_zip]",
+                "FseCompressor[default]+reused",
+                "FseCompressor[fast_pa_zip]+reused",
+                "apply/remove[default]",
+                "apply/remove[for_pa_zip]",
+                "apply/remove[fast_pa_zip]",
+                "fse_zip_reference",
+            ]),
+            trains: vec![Train::English],
+            space: if q { def(5, &[N_QUICK], K_GEN, SHAPES_ALL) } else { def(7, &[N_QUICK, N_THOROUGH_EXTRA, N_HUGE], K_GEN, SHAPES_ALL) },
+            run: run_fse_layer,
+        }));
         reg.add(Enum(MatchCodec));
     });
 }
